@@ -440,6 +440,10 @@ func (dec *decoder) decodeAny(prop j5reflect.Property) error {
 			return nil
 		}
 
+		if keyTokenStr != "value" {
+			return newFieldError(keyTokenStr, "no such field")
+		}
+
 		if valueBytes != nil {
 			return newFieldError(keyTokenStr, "multiple keys found in Any")
 		}
